@@ -220,6 +220,21 @@ func (e *Environment) RemoveScope() error {
 	return fmt.Errorf("attempt to RemoveScope when no scopes are present")
 }
 
+// Depth returns the number of scopes which are currently open.
+func (e *Environment) Depth() int {
+	return len(e.local)
+}
+
+// Unwind removes scopes until only the given number remain open.
+//
+// This is used to discard the scopes of loops which were left early,
+// via a `return` statement or an error.
+func (e *Environment) Unwind(depth int) {
+	if depth >= 0 && depth < len(e.local) {
+		e.local = e.local[:depth]
+	}
+}
+
 // SetLocal stores the value of a variable, by name, but only for the local scope.
 func (e *Environment) SetLocal(name string, val object.Object) object.Object {
 
